@@ -205,6 +205,10 @@ pub fn install_panic_hook() {
             .location()
             .map(|l| format!("{}:{}", l.file(), l.line()))
             .unwrap_or_default();
+        // a panic that cannot unwind (e.g. an `unsafe` precondition check) aborts the process: say why before it does
+        if msg.contains("unsafe precondition") || msg.contains("cannot unwind") || msg.contains("misaligned pointer") || msg.contains("null pointer") {
+            eprintln!("NON-UNWINDING PANIC: {} @ {}", msg, loc);
+        }
         LAST_PANIC.with(|p| *p.borrow_mut() = format!("{} @ {}", msg, loc));
     }));
 }
